@@ -226,6 +226,9 @@ func GenWOp(r *core.Rand, kinds []string) WOp {
 	switch op.Kind {
 	case "create", "save", "updates_assoc", "updates_self":
 		op.Users = []fam.UserSpec{g.User(1)}
+		if op.Kind == "create" && r.Chance(12) {
+			op.SessBatch = 2 // Create of a single struct on a handle with CreateBatchSize
+		}
 	case "create_slice", "create_ptr_slice", "save_slice":
 		n := r.Range(0, 3)
 		for i := 0; i < n; i++ {
